@@ -18,6 +18,9 @@ EXPLANATION = (
     "R3 histogram pairing -- every write of a record to output j is paired on the same path with histogram_data[j][read_length] += 1; "
     "R4 -- the histogram's row keys are deduplicated, so each length is reported once."
 )
+EXPLANATION += (
+    " " + 'R2 also: with --discard-unknown-reads the set of known reads is completed from the map of ALL tagged reads (before --only-largest-block cuts it down), or every listed name is registered when its line is read. R3 also: a histogram count belongs to a write of the same iteration (a read skipped because its output was not requested is not counted).'
+)
 NOT_DECIDED = "pysam / xopen writing the bytes; parsing of the list file's lines."
 ASSUMPTIONS = ["input_iterator yields (name, length, record) for every record of the input (checked for both iterators by R1)"]
 
@@ -379,6 +382,21 @@ def r2(ctx):
         gk = ("discard_unknown_reads", True) in guard_atoms(plcfg, un)
         okk = not late and gk
         ctx.ob(pl.qual, "known-reads-completed-from-the-full-map", okk, pl.loc(ups[0]), "with --discard-unknown-reads every tagged read of the list is known, whatever --only-largest-block keeps" if okk else ("known_reads is completed after the map was cut down to the largest blocks: with both options tagged reads outside the largest block are discarded as unknown instead of going to the untagged output" if late else "known_reads is not completed under discard_unknown_reads"))
+    elif not ups and [c for c in ctx.prog.calls_in(pl.node) if u(c.func) == "known_reads.add" and len(c.args) == 1]:
+        # every line of the list registers its read name, whatever its haplotype: nothing is left to complete
+        adds_ = [c for c in ctx.prog.calls_in(pl.node) if u(c.func) == "known_reads.add" and len(c.args) == 1]
+        okk = None
+        for c in adds_:
+            ga_ = guard_atoms(plcfg, plcfg.node_containing(c))
+            lp_ = c
+            while lp_ is not None and not isinstance(lp_, ast.For):
+                lp_ = getattr(lp_, "parent", None)
+            if lp_ is None:
+                continue
+            extra = [(t_, p_) for t_, p_ in ga_ - guard_atoms(plcfg, plcfg.node_of(lp_)) if not t_.startswith("<") and t_ != "discard_unknown_reads"]
+            if not extra:
+                okk = True
+        ctx.ob(pl.qual, "known-reads-completed-from-the-full-map", okk, pl.loc(adds_[0]), "every listed read name is registered as known when its line is read" if okk else "cannot read how known_reads is completed with the tagged reads")
     else:
         ctx.ob(pl.qual, "known-reads-completed-from-the-full-map", None, pl.loc(), "cannot read how known_reads is completed with the tagged reads")
     ctx.ob(pl.qual, "returns-map-first", ok, pl.loc(rets[0]) if rets else pl.loc(), "the map is the first returned value" if ok else "process_haplotag_list_file does not return the map first")
